@@ -6,7 +6,7 @@ import multiprocessing as mp
 from vf import common, findings
 from vf.props import deductive
 
-KEYS = ["doctrans.emit:class_", "vf.contracts.laws:call_body_roundtrip", "vf.contracts.laws:function_body_roundtrip", "doctrans.emitter_utils:_make_call_meth", "doctrans.parse:function", "doctrans.parse:class_", "doctrans.emit:function", "doctrans.emitter_utils:get_internal_body", "doctrans.emitter_utils:RewriteName.visit_Name", "doctrans.ast_utils:get_function_type"]
+KEYS = ["doctrans.emit:class_", "doctrans.parse:argparse_ast", "vf.contracts.laws:call_body_roundtrip", "vf.contracts.laws:function_body_roundtrip", "doctrans.emitter_utils:_make_call_meth", "doctrans.parse:function", "doctrans.parse:class_", "doctrans.emit:function", "doctrans.emitter_utils:get_internal_body", "doctrans.emitter_utils:RewriteName.visit_Name", "doctrans.ast_utils:get_function_type"]
 
 BODIES = {
     "assign": ["total = alpha + 1", "print(total)"],
